@@ -24,7 +24,8 @@ import inspect
 from vsc.impl.randobj_int import RandObjInt
 from vsc.constraints import constraint_t, dynamic_constraint_t
 from vsc.impl.ctor import push_constraint_scope, pop_constraint_scope, \
-    clear_exprs, push_srcinfo_mode, pop_srcinfo_mode, in_srcinfo_mode
+    clear_exprs, push_srcinfo_mode, pop_srcinfo_mode, in_srcinfo_mode, \
+    constraint_scope_depth
 from vsc.impl.generator_int import GeneratorInt
 from vsc.impl.expr_mode import _expr_mode, get_expr_mode, expr_mode, get_expr_mode_depth, \
     enter_expr_mode, leave_expr_mode, is_raw_mode, is_expr_mode
@@ -75,12 +76,20 @@ class _randobj:
                     
                 # Call the user's constructor
                 ro_i.ctor_level += 1
-                super().__init__(*args, **kwargs)
-                ro_i.ctor_level -= 1
+                try:
+                    super().__init__(*args, **kwargs)
+                except Exception:
+                    if ro_i.ctor_level == 1:
+                        pop_srcinfo_mode()
+                    raise
+                finally:
+                    ro_i.ctor_level -= 1
                 
                 if ro_i.ctor_level == 0:
-                    self.build_field_model(None)
-                    pop_srcinfo_mode()
+                    try:
+                        self.build_field_model(None)
+                    finally:
+                        pop_srcinfo_mode()
             
         # Add the interposer class
         ret = type(T.__name__, (randobj_interposer,), dict())
@@ -203,11 +212,16 @@ class _randobj:
                                     clear_exprs()
                                     block = ConstraintBlockModel(f)
                                     block.srcinfo = fo.srcinfo
+                                    scope_depth = constraint_scope_depth()
                                     push_constraint_scope(block)
                                     try:
                                         fo.c(self)
                                     except Exception as e:
                                         print("Exception while processing constraint: " + str(e))
+                                        # Don't leave the partial block on the shared stacks
+                                        while constraint_scope_depth() > scope_depth:
+                                            pop_constraint_scope()
+                                        clear_exprs()
                                         raise e
                                     fo.set_model(pop_constraint_scope())
                                     model.add_constraint(fo.model)
@@ -216,11 +230,16 @@ class _randobj:
                                     clear_exprs()
                                     block = ConstraintBlockModel(f)
                                     block.srcinfo = fo.srcinfo
+                                    scope_depth = constraint_scope_depth()
                                     push_constraint_scope(block)
                                     try:
                                         fo.c(self)
                                     except Exception as e:
                                         print("Exception while processing constraint: " + str(e))
+                                        # Don't leave the partial block on the shared stacks
+                                        while constraint_scope_depth() > scope_depth:
+                                            pop_constraint_scope()
+                                        clear_exprs()
                                         raise e
                                     fo.set_model(pop_constraint_scope())
                                     fo.model.is_dynamic = True
